@@ -6,6 +6,7 @@ import (
 	"encoding/xml"
 	"fmt"
 	"image"
+	"image/color"
 	"io"
 	"math"
 	"os"
@@ -48,6 +49,8 @@ type c12Prim struct {
 	col     [4]float64 // non-premultiplied r g b (0..255), alpha 0..1 in col[3]
 	grad    bool
 	axis    []float64 // linear gradient: start and end of the gradient vector in canvas space
+	ramp    []float64 // linear gradient: colour (R,G,B,A of 0..255, not premultiplied) at t = 0, 0.1, ..., 1
+	rampErr string    // why the ramp of the output could not be read
 	corners []Pt      // image: where its bottom-left, bottom-right, top-right and top-left corners land
 	pieces  [][]Pt    // dashes of the stroke as open polylines (or the whole sub-paths when not dashed)
 	closed  []bool
@@ -370,6 +373,8 @@ func (p *c12Prim) strokeHas(q Pt, pc []Pt, closed bool, upper bool) bool {
 // ---- case ----------------------------------------------------------------------------------------
 
 type c12Draw struct {
+	// GStops: the stops of the linear gradient fill as offset, R, G, B, A quintuples (nil: red to blue)
+	GStops []float64 `json:",omitempty"`
 	c14Draw
 	Dashes  []float64
 	DashOff float64
@@ -535,6 +540,35 @@ func genC12(kind string) func(r *core.Rng) any {
 					x.Res = core.PickF(r, []float64{0.5, 1, 2, r.Range(0.3, 3)})
 					x.Stroke, x.Fill = nil, nil
 				}
+				if kind == "gradients" && x.Fill != nil {
+					// linear gradients of 2-5 stops; the first may lie after 0 and the last before 1
+					x.Grad = true
+					n := r.IntRange(2, 5)
+					offs := make([]float64, n)
+					for i := range offs {
+						offs[i] = math.Round(r.Range(0, 1)*100) / 100
+					}
+					sort.Float64s(offs)
+					if r.Chance(0.6) {
+						offs[0] = 0
+					}
+					if r.Chance(0.6) {
+						offs[n-1] = 1
+					}
+					for i := 1; i < n; i++ { // strictly increasing (what Add does with equal offsets is not a subject here)
+						if offs[i] <= offs[i-1] {
+							offs[i] = offs[i-1] + 0.05
+						}
+						if offs[i] > 1 {
+							n = i
+							break
+						}
+					}
+					x.GStops = nil
+					for i := 0; i < n; i++ {
+						x.GStops = append(x.GStops, offs[i], float64(r.Intn(256)), float64(r.Intn(256)), float64(r.Intn(256)), 255)
+					}
+				}
 				if kind == "defaults" {
 					// the values a back-end may leave out because they are its format's defaults: opaque black
 					// and white paints, width 1
@@ -601,6 +635,105 @@ func genC12(kind string) func(r *core.Rng) any {
 	}
 }
 
+// c12Ramp samples a gradient given by stops (offset, colour) at t = 0, 0.1, ..., 1: linear interpolation
+// between neighbouring stops, the first and last colour outside them (SVG 1.1 13.2.4, PDF 8.7.4.5.3).
+func c12Ramp(offs []float64, cols [][4]float64) []float64 {
+	var out []float64
+	if len(offs) == 0 {
+		return nil
+	}
+	for k := 0; k <= 10; k++ {
+		t := float64(k) / 10
+		var c [4]float64
+		switch {
+		case t <= offs[0]:
+			c = cols[0]
+		case t >= offs[len(offs)-1]:
+			c = cols[len(cols)-1]
+		default:
+			for i := 0; i+1 < len(offs); i++ {
+				if t >= offs[i] && t <= offs[i+1] {
+					u := 0.0
+					if offs[i+1] > offs[i] {
+						u = (t - offs[i]) / (offs[i+1] - offs[i])
+					}
+					for j := 0; j < 4; j++ {
+						c[j] = cols[i][j] + u*(cols[i+1][j]-cols[i][j])
+					}
+					break
+				}
+			}
+		}
+		out = append(out, c[0], c[1], c[2], c[3])
+	}
+	return out
+}
+
+// c12PDFFunction evaluates a PDF function of type 2 (exponential, N = 1) or 3 (stitching) at t.
+func c12PDFFunction(f *refpdf.File, fn any, t float64) ([]float64, error) {
+	d, ok := f.Resolve(fn).(refpdf.Dict)
+	if !ok {
+		return nil, fmt.Errorf("the function is not a dictionary")
+	}
+	num := func(v any) float64 { x, _ := refpdf.Num(v); return x }
+	arr := func(k string) []float64 {
+		a, _ := f.Resolve(d[refpdf.Name(k)]).(refpdf.Array)
+		var out []float64
+		for _, e := range a {
+			out = append(out, num(e))
+		}
+		return out
+	}
+	dom := arr("Domain")
+	if len(dom) != 2 {
+		return nil, fmt.Errorf("function without a Domain of two numbers")
+	}
+	t = math.Max(dom[0], math.Min(dom[1], t))
+	switch int(num(d["FunctionType"])) {
+	case 2:
+		c0, c1 := arr("C0"), arr("C1")
+		if len(c0) != len(c1) || len(c0) == 0 {
+			return nil, fmt.Errorf("exponential function with C0 %v and C1 %v", c0, c1)
+		}
+		u := math.Pow(t, num(d["N"]))
+		out := make([]float64, len(c0))
+		for i := range c0 {
+			out[i] = c0[i] + u*(c1[i]-c0[i])
+		}
+		return out, nil
+	case 3:
+		fs, _ := f.Resolve(d["Functions"]).(refpdf.Array)
+		bounds, enc := arr("Bounds"), arr("Encode")
+		if len(fs) == 0 || len(bounds) != len(fs)-1 || len(enc) != 2*len(fs) {
+			return nil, fmt.Errorf("stitching function with %d functions, %d bounds (needs %d) and %d encode values (needs %d)", len(fs), len(bounds), len(fs)-1, len(enc), 2*len(fs))
+		}
+		lo := dom[0]
+		for i := range bounds {
+			if bounds[i] < lo || bounds[i] > dom[1] {
+				return nil, fmt.Errorf("stitching function bounds %v are not increasing within the domain %v", bounds, dom)
+			}
+			lo = bounds[i]
+		}
+		k := 0
+		for k < len(bounds) && t >= bounds[k] {
+			k++
+		}
+		a, b := dom[0], dom[1]
+		if k > 0 {
+			a = bounds[k-1]
+		}
+		if k < len(bounds) {
+			b = bounds[k]
+		}
+		u := enc[2*k]
+		if b > a {
+			u = enc[2*k] + (t-a)/(b-a)*(enc[2*k+1]-enc[2*k])
+		}
+		return c12PDFFunction(f, fs[k], u)
+	}
+	return nil, fmt.Errorf("function type %v", d["FunctionType"])
+}
+
 // c12Canvas records the drawing.
 func c12Canvas(c *c12Case) *canvas.Canvas {
 	cv := canvas.New(c.W, c.H)
@@ -621,8 +754,13 @@ func c12Canvas(c *c12Case) *canvas.Canvas {
 		if d.Fill != nil {
 			if d.Grad {
 				g := canvas.NewLinearGradient(canvas.Point{X: 0, Y: 0}, canvas.Point{X: c.W, Y: c.H})
-				g.Add(0, canvas.Red)
-				g.Add(1, canvas.Blue)
+				if d.GStops == nil {
+					g.Add(0, canvas.Red)
+					g.Add(1, canvas.Blue)
+				}
+				for i := 0; i+4 < len(d.GStops); i += 5 {
+					g.Add(d.GStops[i], color.RGBA{uint8(d.GStops[i+1]), uint8(d.GStops[i+2]), uint8(d.GStops[i+3]), 255})
+				}
 				ctx.SetFillGradient(g)
 			} else {
 				ctx.SetFillColor(nrgba(d.Fill))
@@ -730,6 +868,9 @@ func readSVG(data []byte, eps float64, units string, gz bool) ([]c12Prim, error)
 	scaleX, scaleY := 1.0, 1.0
 	grads := map[string]bool{}
 	gradAxes := map[string][]float64{}
+	gradOffs := map[string][]float64{}
+	gradCols := map[string][][4]float64{}
+	curGrad := ""
 	depthDefs := 0
 	for {
 		tok, err := dec.Token()
@@ -767,8 +908,47 @@ func readSVG(data []byte, eps float64, units string, gz bool) ([]c12Prim, error)
 			H = h
 		case "defs":
 			depthDefs++
+		case "stop":
+			if curGrad == "" {
+				return nil, fmt.Errorf("stop element outside a gradient")
+			}
+			off := strings.TrimSpace(attr["offset"])
+			var ov float64
+			var e error
+			if strings.HasSuffix(off, "%") {
+				ov, e = strconv.ParseFloat(strings.TrimSuffix(off, "%"), 64)
+				ov /= 100
+			} else {
+				ov, e = strconv.ParseFloat(off, 64)
+			}
+			if e != nil {
+				return nil, fmt.Errorf("stop offset %q", attr["offset"])
+			}
+			sprops := map[string]string{"stop-color": "black", "stop-opacity": "1"}
+			for k := range sprops {
+				if v, ok := attr[k]; ok {
+					sprops[k] = v
+				}
+			}
+			for _, decl := range strings.Split(attr["style"], ";") {
+				if kv := strings.SplitN(decl, ":", 2); len(kv) == 2 {
+					sprops[strings.TrimSpace(kv[0])] = strings.TrimSpace(kv[1])
+				}
+			}
+			sc, none, _, e := parseCSSColor(sprops["stop-color"])
+			op, e2 := strconv.ParseFloat(sprops["stop-opacity"], 64)
+			if e != nil || e2 != nil || none {
+				return nil, fmt.Errorf("stop colour %q opacity %q", sprops["stop-color"], sprops["stop-opacity"])
+			}
+			ov = math.Max(0, math.Min(1, ov))
+			if n := len(gradOffs[curGrad]); n > 0 && ov < gradOffs[curGrad][n-1] {
+				ov = gradOffs[curGrad][n-1] // SVG: an offset is at least the previous one
+			}
+			gradOffs[curGrad] = append(gradOffs[curGrad], ov)
+			gradCols[curGrad] = append(gradCols[curGrad], [4]float64{sc[0], sc[1], sc[2], sc[3] * op * 255})
 		case "linearGradient", "radialGradient":
 			grads[attr["id"]] = true
+			curGrad = attr["id"]
 			if se.Name.Local == "linearGradient" && attr["gradientUnits"] == "userSpaceOnUse" {
 				var v [4]float64
 				for i, k := range []string{"x1", "y1", "x2", "y2"} {
@@ -826,6 +1006,7 @@ func readSVG(data []byte, eps float64, units string, gz bool) ([]c12Prim, error)
 					}
 					pr.grad = true
 					pr.axis = gradAxes[url]
+					pr.ramp = c12Ramp(gradOffs[url], gradCols[url])
 				}
 				prims = append(prims, pr)
 			}
@@ -888,6 +1069,8 @@ type pdfGS struct {
 	fill, stroke   [4]float64
 	fillG, strokeG bool
 	fillAxis       []float64
+	fillRamp       []float64
+	fillRampErr    error
 	w              float64
 	cap, join      int
 	limit          float64
@@ -944,6 +1127,12 @@ func readPDF(data []byte, epsPt float64) ([]c12Prim, float64, float64, error) {
 			pr := c12Prim{fill: subsToPolys(b.subs, epsPt, true, id), rule: rule, col: gs.fill, grad: gs.fillG}
 			if gs.fillG {
 				pr.axis = gs.fillAxis
+				if gs.fillG {
+					pr.ramp = gs.fillRamp
+					if gs.fillRampErr != nil {
+						pr.rampErr = gs.fillRampErr.Error()
+					}
+				}
 			}
 			prims = append(prims, pr)
 		}
@@ -1069,6 +1258,15 @@ func readPDF(data []byte, epsPt float64) ([]c12Prim, float64, float64, error) {
 						for _, e := range co {
 							gs.fillAxis = append(gs.fillAxis, num(e)*mmPerPt)
 						}
+					}
+					gs.fillRamp, gs.fillRampErr = nil, nil
+					for k := 0; k <= 10; k++ {
+						v, err := c12PDFFunction(f, sh["Function"], float64(k)/10)
+						if err != nil || len(v) != 3 {
+							gs.fillRamp, gs.fillRampErr = nil, fmt.Errorf("shading function: %v (value %v)", err, v)
+							break
+						}
+						gs.fillRamp = append(gs.fillRamp, v[0]*255, v[1]*255, v[2]*255, 255)
 					}
 				}
 			}
@@ -1454,21 +1652,43 @@ func c12Check(ci any, o *core.Obs) {
 		if bk.name == "ps" {
 			continue
 		}
-		var ma, ba [][]float64
+		var ma, ba, mr, br [][]float64
+		var brErr []string
 		for _, pr := range model {
 			if pr.grad && pr.corners == nil {
 				ma = append(ma, pr.axis)
+				mr = append(mr, pr.ramp)
 			}
 		}
 		for _, pr := range bk.prims {
 			if pr.grad && pr.corners == nil {
 				ba = append(ba, pr.axis)
+				br = append(br, pr.ramp)
+				brErr = append(brErr, pr.rampErr)
 			}
 		}
 		o.Decided(1)
 		if len(ma) != len(ba) {
 			o.Fail(bk.name+"-gradient", "the drawing has %d gradient fills, the %s output %d; %s", len(ma), bk.name, len(ba), c12Str(c))
 			return
+		}
+		for i := range mr {
+			if i < len(br) && mr[i] != nil {
+				if len(br[i]) != len(mr[i]) {
+					o.Fail(bk.name+"-gradient-ramp", "gradient %d of the %s output has no readable colour ramp (%s); %s", i, bk.name, brErr[i], c12Str(c))
+					return
+				}
+				for k := range mr[i] {
+					// the alpha of a stop is not compared for PDF (opaque shadings; soft masks are not modelled)
+					if bk.name == "pdf" && k%4 == 3 {
+						continue
+					}
+					if math.Abs(br[i][k]-mr[i][k]) > 2.5 {
+						o.Fail(bk.name+"-gradient-ramp", "gradient %d: at t = %.1f the %s output has colour component %d = %.4g, the drawing %.4g (0..255; ramp of the output %.4g, of the drawing %.4g); %s", i, float64(k/4)/10, bk.name, k%4, br[i][k], mr[i][k], br[i], mr[i], c12Str(c))
+						return
+					}
+				}
+			}
 		}
 		for i := range ma {
 			if len(ba[i]) != 4 || math.Abs(ba[i][0]-ma[i][0])+math.Abs(ba[i][1]-ma[i][1])+math.Abs(ba[i][2]-ma[i][2])+math.Abs(ba[i][3]-ma[i][3]) > 1e-4*(c.W+c.H) {
@@ -1718,6 +1938,15 @@ func c12Model(c *c12Case, eps float64, o *core.Obs, arcsNative bool) ([]c12Prim,
 				pr.col = col(d.Fill)
 			} else {
 				pr.axis = []float64{0, 0, c.W, c.H} // gradients are given in canvas coordinates
+				offs, cols := []float64{0, 1}, [][4]float64{{255, 0, 0, 255}, {0, 0, 255, 255}}
+				if d.GStops != nil {
+					offs, cols = nil, nil
+					for i := 0; i+4 < len(d.GStops); i += 5 {
+						offs = append(offs, d.GStops[i])
+						cols = append(cols, [4]float64{d.GStops[i+1], d.GStops[i+2], d.GStops[i+3], d.GStops[i+4]})
+					}
+				}
+				pr.ramp = c12Ramp(offs, cols)
 			}
 			prims = append(prims, pr)
 		}
@@ -1825,6 +2054,7 @@ func init() {
 			{Name: "ps", Quick: 300, Thorough: 8000, Gen: genC12("ps")},
 			{Name: "state", Quick: 800, Thorough: 10000, Gen: genC12State},
 			{Name: "state-image", Quick: 500, Thorough: 10000, Gen: genC12StateImage, Note: "images between draws whose fills alternate between translucent and opaque"},
+			{Name: "gradients", Quick: 500, Thorough: 10000, Gen: genC12("gradients"), Note: "linear gradients of 2-5 stops, first stop after 0 / last stop before 1: the colour ramp of the SVG stops and of the PDF shading function is compared at 11 positions"},
 			{Name: "defaults", Quick: 500, Thorough: 10000, Gen: genC12("defaults"), Note: "paints and widths that are defaults of the output formats (opaque black and white, width 1), filled and stroked, on shapes where the fill rules differ"},
 			{Name: "selfx-stroke", Quick: 200, Thorough: 4000, Gen: genC12("selfx-stroke"), WitnessOnly: true, Note: "strokes of closed self-crossing or nested contours: Path.Stroke loses lobes (F-C04-closed-selfx), so the rasterizer and the outline fall-backs differ from native strokes"},
 		},
